@@ -38,27 +38,53 @@ LAYOUTS = {
     "q2": (["a", "b', 'c"], 1),
     "sp1": (["a b", "c"], 1),
     "sp2": (["a", "b c"], 1),
+    # columns whose DTYPE is symbolic too (int64 / float64 / bool with the same bit patterns): the row hash sees the raw buffers only
+    "t1": (["a"], 1),
+    "t2": (["a"], 2),
+    "tb1": (["a", "b"], 1),
 }
+SYM_DTYPE_LAYOUTS = {"t1", "t2", "tb1"}
 ADVERSARIAL = [("x_y,z", "x,y_z"), ("int1", "str1"), ("q1", "q2"), ("sp1", "sp2")]
 
 
-class FakeFrame:
-    """stand-in for a pandas frame: concrete labels/shape, symbolic cells (positional list of columns)"""
+DTYPE_NAMES = ["int64", "float64", "bool"]
 
-    def __init__(self, columns, cells):
+
+class SymDType:
+    """a column dtype whose identity is a z3 Int tag (0 int64, 1 float64, 2 bool): printing it is a structural decision, forked on"""
+
+    def __init__(self, tag):
+        self.tag = tag
+
+    def __str__(self):
+        for i, n in enumerate(DTYPE_NAMES[:-1]):
+            if B(self.tag == i):
+                return n
+        return DTYPE_NAMES[-1]
+
+    __repr__ = __str__
+
+
+class FakeFrame:
+    """stand-in for a pandas frame: concrete labels/shape, symbolic cells (positional list of columns; a cell = its 64-bit pattern as an integer)
+    and a symbolic dtype per column"""
+
+    def __init__(self, columns, cells, dtypes=None):
         self.columns = list(columns)
         self.cells = [list(c) for c in cells]
         nrow = len(self.cells[0]) if self.cells else 0
         self.shape = (nrow, len(self.columns))
+        self.dtypes = list(dtypes) if dtypes is not None else [SymDType(z3.IntVal(0)) for _ in self.columns]
 
     def copy(self):
-        return FakeFrame(self.columns, self.cells)
+        return FakeFrame(self.columns, self.cells, self.dtypes)
 
     def same_contents(self, o):
-        """z3: same labels(order), shape and cells"""
+        """z3: same labels(order), shape, column types and cells"""
         if self.columns != o.columns or self.shape != o.shape:
             return z3.BoolVal(False)
         eqs = [a == b for ca, cb in zip(self.cells, o.cells) for a, b in zip(ca, cb)]
+        eqs += [a.tag == b.tag for a, b in zip(self.dtypes, o.dtypes)]
         return z3.And(eqs) if eqs else z3.BoolVal(True)
 
     def equals(self, o):
@@ -156,7 +182,19 @@ class SymWorld:
 
     def frame(self, tag, layout):
         cols, nrow = LAYOUTS[layout]
-        return FakeFrame(cols, [[z3.Int(f"{tag}.{c}.{r}") for r in range(nrow)] for c in cols])
+        dts = []
+        cells = [[z3.Int(f"{tag}.{c}.{r}") for r in range(nrow)] for c in cols]
+        for c, col in zip(cols, cells):
+            if layout not in SYM_DTYPE_LAYOUTS:
+                dts.append(SymDType(z3.IntVal(0)))
+                continue
+            t = z3.Int(f"{tag}.{c}.dtype")
+            if forksym.ENG is not None:
+                forksym.ENG.assume(z3.And(t >= 0, t <= 2))
+                for x in col:
+                    forksym.ENG.assume(z3.Implies(t == 2, z3.And(x >= 0, x <= 1)))  # a bool column holds the bit patterns 0 / 1 only
+            dts.append(SymDType(t))
+        return FakeFrame(cols, cells, dts)
 
     def text(self, tag):
         return Name(tag, z3.String(tag))
@@ -186,7 +224,19 @@ class RealWorld:
         import pandas as pd
 
         cols, nrow = LAYOUTS[layout]
-        return pd.DataFrame({c: [int(self.asg.get(f"{tag}.{c}.{r}", 0)) for r in range(nrow)] for c in cols}, columns=cols)
+        import struct
+
+        data = {}
+        for c in cols:
+            bits = [max(-2 ** 63, min(2 ** 63 - 1, int(self.asg.get(f"{tag}.{c}.{r}", 0)))) for r in range(nrow)]
+            dt = int(self.asg.get(f"{tag}.{c}.dtype", 0))
+            if dt == 1:  # the float64 with this bit pattern
+                data[c] = pd.Series([struct.unpack("<d", struct.pack("<q", b))[0] for b in bits], dtype="float64")
+            elif dt == 2:
+                data[c] = pd.Series([bool(b) for b in bits], dtype="bool")
+            else:
+                data[c] = pd.Series(bits, dtype="int64")
+        return pd.DataFrame(data, columns=cols)
 
     def text(self, tag):
         return str(self.asg.get(tag, ""))
@@ -333,6 +383,8 @@ def configs(tier):
     for pair in ADVERSARIAL:
         grp = [(("t", l),) for l in pair]
         out += [(a, b, c) for a, b, c in itertools.product(grp, repeat=3)]
+    for l in (("t1", "t2") if tier == "quick" else ("t1", "t2", "tb1")):
+        out.append(((("t", l),), (("t", l),), (("t", l),)))
     two = [(("t", "a1"), ("u", "a1")), (("u", "a1"), ("t", "a1")), (("t", "a1"),), (("u", "a1"),), (("t", "ab1"), ("u", "ba1"))]
     out += [(a, b, c) for a, b, c in itertools.product(two, repeat=3)] if tier == "thorough" else \
            [(a, a, c) for a, c in itertools.product(two, repeat=2)] + [(a, c, c) for a, c in itertools.product(two, repeat=2)]
@@ -377,6 +429,21 @@ def run(tier):
         differs, stable = concrete_samples()
     except Exception as e:
         differs, stable = {"error": repr(e)}, None
+    # recorded finding (known_findings.json): mixed-type OBJECT columns are stringified by pandas' row hash; replayed on the real function
+    from vf.common import load_known_findings
+
+    for e in load_known_findings("C25"):
+        if e.get("id") == "cache_key_object_column_types":
+            try:
+                import pandas as pd
+                import data_algebra.eval_cache as ec
+
+                a = pd.DataFrame({"x": pd.Series([1, "a"], dtype=object)})
+                b = pd.DataFrame({"x": pd.Series(["1", "a"], dtype=object)})
+                if (not a.equals(b)) and ec.hash_data_frame(a) == ec.hash_data_frame(b):
+                    rep.known_finding(f"{e['id']}: {e['what_fails']}")
+            except Exception as ex:
+                rep.harness_error(f"known finding replay crashed: {ex!r}")
     rep.coverage = {
         "explanation": "Real hash_data_frame/make_cache_key/EvalKey/ResultCache executed on symbolic dialect and SQL strings and symbolic frame cells; "
                        "per path z3 decides: hit => same (dialect, SQL, table names, column lists, shapes, contents); returned value == last stored "
